@@ -153,7 +153,13 @@ def _remove_node_and_replace_values(
     # Update graph/function outputs if the node generates output
     if any(remove_value.is_graph_output() for remove_value in remove_values):
         replacement_mapping = dict(zip(remove_values, new_values))
+        # A value can be listed more than once in the graph outputs: every occurrence
+        # gets the one replacement created for the first occurrence
+        placed: dict[ir.Value, ir.Value] = {}
         for idx, graph_output in enumerate(graph.outputs):
+            if graph_output in placed:
+                graph.outputs[idx] = placed[graph_output]
+                continue
             if graph_output in replacement_mapping:
                 new_value = replacement_mapping[graph_output]
                 if new_value.is_graph_output() or new_value.is_graph_input():
@@ -173,6 +179,7 @@ def _remove_node_and_replace_values(
                     )
                     # reuse the name of the graph output
                     graph.outputs[idx] = identity_node.outputs[0]
+                    placed[graph_output] = identity_node.outputs[0]
                     graph.insert_before(
                         remove_node,
                         identity_node,
@@ -187,6 +194,7 @@ def _remove_node_and_replace_values(
                     if new_value.shape is None:
                         new_value.shape = graph_output.shape
                     graph.outputs[idx] = new_value
+                    placed[graph_output] = new_value
 
     # Reconnect the users of the deleted values to use the new values
     ir.convenience.replace_all_uses_with(remove_values, new_values)
